@@ -529,8 +529,13 @@ func (r *Message) decode(decoder Decoder) (int, error) {
 	for {
 		n, err = decoder.Decode(r.bufferUnmarshal, &r.msg)
 		if errors.Is(err, message.ErrOptionsTooSmall) {
-			// increase buffer size and try again
-			r.msg.Options = make(message.Options, 0, len(r.msg.Options)*2)
+			// increase buffer size and try again (a message that was filled with SetMessage may have no
+			// room for options at all: doubling nothing would try again with nothing, forever)
+			size := len(r.msg.Options) * 2
+			if size == 0 {
+				size = 16
+			}
+			r.msg.Options = make(message.Options, 0, size)
 			continue
 		}
 		return n, err
